@@ -6,6 +6,7 @@ import (
 	"fmt"
 	"os"
 	"regexp"
+	"strconv"
 	"strings"
 	"sync"
 
@@ -114,9 +115,25 @@ type Runner struct {
 	PackSize int
 	mu       sync.Mutex
 	Programs int64
+	// cross-check of the in-process pipeline (fast mode) against the ferret binary
+	CrossChecked, CrossMismatch int64
+	CrossNotes                  []string
 }
 
-func New(c *vl.Ctx) *Runner { return &Runner{C: c, R: run.New(c), PackSize: 24} }
+// CrossEvery: every CrossEvery-th pack is compiled both in-process and by the binary.
+var CrossEvery = 16
+
+func New(c *vl.Ctx) *Runner {
+	r := &Runner{C: c, R: run.New(c), PackSize: 48}
+	r.R.Fast = os.Getenv("VERIF_NOFAST") == ""
+	if v, err := strconv.Atoi(os.Getenv("VERIF_PACK")); err == nil && v > 0 {
+		r.PackSize = v
+	}
+	return r
+}
+
+// Close stops the compile workers.
+func (r *Runner) Close() { r.R.Close() }
 
 func (r *Runner) count() {
 	r.mu.Lock()
@@ -155,8 +172,10 @@ func nativeTerm(p run.Proc) string {
 	}
 }
 
-// runOne compiles and runs one program text on a target.
-func (r *Runner) runOne(src string, target string) Obs {
+// runOne compiles and runs one program text on a target. real: use the `ferret` binary even
+// when the runner is in fast (in-process) mode — every observation that is reported as a
+// disagreement is made this way.
+func (r *Runner) runOne(src string, target string, real bool) Obs {
 	r.count()
 	dir := r.R.NewDir()
 	defer os.RemoveAll(dir)
@@ -180,7 +199,12 @@ func (r *Runner) runOne(src string, target string) Obs {
 		}
 		return o
 	}
-	b := r.R.CompileNative(dir, "main.fer")
+	var b run.Built
+	if real {
+		b = r.R.RealCompileNative(dir, "main.fer")
+	} else {
+		b = r.R.CompileNative(dir, "main.fer")
+	}
 	if !b.Compile.OK() || !b.Exists {
 		msg := CanonErr(b.Compile.Stderr + "\n" + b.Compile.Stdout)
 		if b.Compile.OK() {
@@ -214,15 +238,28 @@ func (r *Runner) Observe(cases []*Case, target string, want func(i int) *Obs) []
 	if len(cur) > 0 {
 		packs = append(packs, cur)
 	}
-	alone := func(i int) Obs {
-		o := r.runOne(fl.Render(cases[i].P), target)
+	fast := r.R.Fast && target == "native"
+	// single observes one case as a program of its own. In fast mode the in-process result is
+	// kept only if it is what the caller expects (or the caller has no expectation and will
+	// re-observe differences itself: Alone stays false); everything else comes from the binary.
+	single := func(i int) Obs {
+		if fast {
+			o := r.runOne(fl.Render(cases[i].P), target, false)
+			if want == nil {
+				return o
+			}
+			if w := want(i); w != nil && Equal(o, *w) {
+				return o
+			}
+		}
+		o := r.runOne(fl.Render(cases[i].P), target, true)
 		o.Alone = true
 		return o
 	}
-	vl.ParDo(len(packs), 16, func(pi int) {
-		idx := packs[pi]
+	var observe func(idx []int, top bool, pi int)
+	observe = func(idx []int, top bool, pi int) {
 		if len(idx) == 1 {
-			res[idx[0]] = alone(idx[0])
+			res[idx[0]] = single(idx[0])
 			return
 		}
 		sub := make([]*Case, len(idx))
@@ -230,7 +267,22 @@ func (r *Runner) Observe(cases []*Case, target string, want func(i int) *Obs) []
 			sub[j] = cases[i]
 		}
 		pp, markers := Pack(sub)
-		o := r.runOne(fl.Render(pp), target)
+		src := fl.Render(pp)
+		o := r.runOne(src, target, false)
+		if fast && top && pi%CrossEvery == 0 {
+			// cross-check of the in-process pipeline against the binary on the same program
+			o2 := r.runOne(src, target, true)
+			r.mu.Lock()
+			r.CrossChecked++
+			if !Equal(o, o2) {
+				r.CrossMismatch++
+				if len(r.CrossNotes) < 5 {
+					r.CrossNotes = append(r.CrossNotes, fmt.Sprintf("pack %d (%s..): in-process %s || binary %s", pi, sub[0].ID, clip(o.String(), 300), clip(o2.String(), 300)))
+				}
+			}
+			r.mu.Unlock()
+			o = o2
+		}
 		ok := o.Accepted && o.Term == "exit0" && len(o.Lines) > 0 && o.Lines[len(o.Lines)-1] == "#end"
 		var per [][]string
 		if ok {
@@ -251,27 +303,52 @@ func (r *Runner) Observe(cases []*Case, target string, want func(i int) *Obs) []
 				ok = false
 			}
 		}
+		if !ok {
+			// some case of the pack does not compile or stops the program: halve
+			h := len(idx) / 2
+			observe(idx[:h], false, pi)
+			observe(idx[h:], false, pi)
+			return
+		}
 		for j, i := range idx {
-			if !ok {
-				res[i] = alone(i)
-				continue
-			}
 			po := Obs{Accepted: true, Lines: per[j], Term: "exit0"}
 			if want != nil {
 				if w := want(i); w != nil && !Equal(po, *w) {
-					res[i] = alone(i)
+					res[i] = single(i)
 					continue
 				}
 			}
 			res[i] = po
 		}
-	})
+	}
+	vl.ParDo(len(packs), 16, func(pi int) { observe(packs[pi], true, pi) })
 	return res
+}
+
+func clip(s string, n int) string {
+	if len(s) > n {
+		return s[:n] + "..."
+	}
+	return s
+}
+
+// Report adds the runner's counters to the evidence.
+func (r *Runner) Report() {
+	r.mu.Lock()
+	defer r.mu.Unlock()
+	r.C.Count("programs_compiled", r.Programs)
+	r.C.Count("programs_compiled_in_process", r.R.FastN)
+	r.C.Count("in_process_fell_back_to_binary", r.R.FastFell)
+	r.C.Count("in_process_vs_binary_cross_checked", r.CrossChecked)
+	r.C.Count("in_process_vs_binary_mismatch", r.CrossMismatch)
+	for _, n := range r.CrossNotes {
+		fmt.Println("NOTE: in-process pipeline and ferret binary differ (the binary's observation is used):", n)
+	}
 }
 
 // ObserveAlone compiles and runs one case as a program of its own.
 func (r *Runner) ObserveAlone(k *Case, target string) Obs {
-	o := r.runOne(fl.Render(k.P), target)
+	o := r.runOne(fl.Render(k.P), target, true)
 	o.Alone = true
 	return o
 }
